@@ -116,6 +116,23 @@ def check_shape(g, acc):
     r1, r2 = eq(A, C), eq(C, A)
     if r1 is not True or r2 is not True:
         acc.add_problem(problem("copy_not_equal", dict(case0, difference="copy"), expected=True, observed=[r1, r2]))
+    # a distinct tree whose nodes carry the SAME ids (the tree saved to JSON and loaded again)
+    from metapype.model import metapype_io
+    try:
+        J = metapype_io.from_json(metapype_io.to_json(A))
+        n_pairs += 1
+        r1, r2 = eq(A, J), eq(J, A)
+        if r1 is not True or r2 is not True:
+            acc.add_problem(problem("twin_not_equal", dict(case0, difference="json-reload (same ids)"), expected=True, observed=[r1, r2]))
+        J.children and setattr(gtree.preorder(J)[-1], "content", "changed-after-reload")
+        if J.children:
+            r1, r2 = eq(A, J), eq(J, A)
+            n_pairs += 1
+            if r1 is not False or r2 is not False:
+                acc.add_problem(problem("difference_not_detected", dict(case0, difference="json-reload then content edit"),
+                                        expected=False, observed=[r1, r2], difference_="content"))
+    except Exception as e:  # noqa
+        acc.add_problem(problem("twin_not_equal", dict(case0, difference="json-reload (same ids)"), expected=True, observed=repr(e)))
     # ... also for trees in which a child lacks a prefix of its parent (remove_namespace on a subtree, set_nsmap on one
     # node), and for a map that an inner node shares with its parent while the twin's is its own
     for post in (("remove_namespace", "q"), ("set_nsmap_single", {"r": "urn:r"}), ("own_map_same_value", None)):
